@@ -60,4 +60,6 @@ ScannerIsMeaning == Done => out = Expand(Input, 1)
 NoRefNoChange == Done => ((\A p \in 1..Len(Input) : ~(RefAt(Input, p).ok /\ IsSet(RefAt(Input, p).name))) => out = Input)
 \* the part of the input not yet scanned never influences what was already emitted (single pass)
 PrefixStable == [][phase = "scan" /\ phase' = "scan" => SubSeq(out', 1, Len(out)) = out]_vars
+\* (What comes out of Expand is a name.  A component that is handed that name later - the roller gets the appender's
+\* path at every roll - takes it as it is: the replay rolls an appender built on every other input once per record.)
 =============================================================================
